@@ -73,46 +73,133 @@ def construction(report, db, cg, M, P):
                     'version goes through a helper that returns a '
                     'supported protocol number or raises ValueError')
     init = M.conn_method('__init__')
-    helpers = [f for f in db.funcs if f.outer is init]
-    used = set()
-    for n in ast.walk(init.node):
-        if isinstance(n, ast.Call):
-            if isinstance(n.func, ast.Name) and [ast.unparse(a) for a in
-                                                 n.args] == \
-                    ['initial_version']:
-                used.add(n.func.id)
-            if ast.unparse(n.func) == 'map' and len(n.args) == 2 and \
-                    ast.unparse(n.args[1]) == 'allowed_versions':
-                used.add(ast.unparse(n.args[0]))
-    hp = [f for f in helpers if f.name in used]
-    if len(hp) != 1:
-        raise AnalysisError('Connection.__init__: version helper not found',
+    me = ('sym', init.params[0])
+    # phase 1: what __init__ stores, with every call kept as a call (nothing
+    # inlined): the validating helper is the function both inputs go through
+    S0 = pathsum.PathSum(db, cg, max_depth=0, implicit_raises=False)
+    initial, allowed = ('sym', 'initial_version'), ('sym', 'allowed_versions')
+    if 'initial_version' not in init.params or \
+            'allowed_versions' not in init.params:
+        raise AnalysisError('Connection.__init__ lost its version parameters',
                             init.node, rel(init.path))
-    h = hp[0]
-    g = cfg_of(h)
-    rets = [n for n in g.reachable_nodes() if isinstance(n.ast, ast.Return)]
+
+    def applied_to(t, arg_ok):
+        """in-repo function V when t is V(<arg>) (None otherwise)"""
+        if t[0] == 'call' and t[1][0] == 'fn' and not t[3]:
+            args = [x for x in t[2] if struct(x) != me]
+            if len(args) == 1 and arg_ok(args[0]):
+                return t[1][1]
+        return None
+
+    def elementwise(t):
+        """V when t is a collection of V(x) for x in allowed_versions"""
+        while t[0] == 'op' and t[1] in ('set', 'frozenset', 'list', 'tuple',
+                                        'sorted') and len(t[2]) == 1:
+            t = t[2][0]
+        if t[0] == 'op' and t[1] == 'map' and len(t[2]) == 2 and \
+                struct(t[2][1]) == allowed and t[2][0][0] == 'fn':
+            return t[2][0][1]
+        if t[0] == 'op' and t[1] in ('genexp', 'listcomp', 'setcomp') and \
+                len(t[2][0][1]) == 1 and struct(t[2][0][1][0]) == allowed \
+                and not t[2][2][1]:
+            vs = set()
+            for alt in t[2][1][1]:
+                vs.add(applied_to(alt[1][0], lambda a: a[0] == 'elem'
+                                  and struct(a[1]) == allowed))
+            if len(vs) == 1:
+                return vs.pop()
+        return None
+    val_init, val_allowed = set(), set()
+    bypass = []
+    npaths = 0
+    for p in S0.run(init):
+        if not p.returns:
+            continue
+        npaths += 1
+        none_i = none_a = None
+        for a, pol, _ in p.conds:
+            if a[1] == 'is' and a[2][1] == ('const', None):
+                if struct(a[2][0]) == initial:
+                    none_i = pol
+                elif struct(a[2][0]) == allowed:
+                    none_a = pol
+        for e in p.flat(('store',)):
+            if struct(e.base) != me:
+                continue
+            if e.attr == 'default_proto_version' and none_i is False:
+                v = applied_to(e.value, lambda a: struct(a) == initial)
+                if v is None:
+                    bypass.append((e, 'initial_version is stored as %s'
+                                   % show(e.value)))
+                else:
+                    val_init.add(v)
+            elif e.attr == 'default_proto_version' and none_i is None:
+                bypass.append((e, 'the default version does not depend on '
+                               'initial_version being given'))
+            elif e.attr == 'allowed_proto_versions' and none_a is False:
+                v = elementwise(e.value)
+                if v is None:
+                    bypass.append((e, 'allowed_versions are stored as %s'
+                                   % show(e.value)[:100]))
+                else:
+                    val_allowed.add(v)
+            elif e.attr == 'allowed_proto_versions' and none_a is None:
+                bypass.append((e, 'the allowed versions do not depend on '
+                               'allowed_versions being given'))
+    if not npaths:
+        raise AnalysisError('Connection.__init__: no returning path',
+                            init.node, rel(init.path))
+    for e, why in bypass[:3]:
+        report.violation(R, 'helper:bypassed', init.path, e.node,
+                         init.qualname, '%s: it does not pass through the '
+                         'validating helper' % why)
+    if bypass:
+        return
+    if len(val_init) != 1 or val_init != val_allowed:
+        raise AnalysisError('Connection.__init__: version helper not found '
+                            '(initial: %s, allowed: %s)' % (
+                                sorted(f.qualname for f in val_init),
+                                sorted(f.qualname for f in val_allowed)),
+                            init.node, rel(init.path))
+    h = val_init.pop()
+    report.ok(R, 'allowed_versions and initial_version are both mapped '
+              'through %s' % h.name)
+    # phase 2: the helper itself, by its path summaries: a value is returned
+    # only after it was found in SUPPORTED_PROTOCOL_VERSIONS; every other
+    # path raises ValueError
+    S1 = pathsum.PathSum(db, cg, implicit_raises=False,
+                         inline_pred=pathsum.known_unit_pred())
     okk = True
-    for r in rets:
-        conds = boolfn.path_conditions(g, r)
-        val = ast.unparse(r.ast.value) if r.ast.value else 'None'
-        member = [(e, t) for e, t in conds
-                  if 'SUPPORTED_PROTOCOL_VERSIONS' in ast.unparse(e)]
-        good = False
-        for e, t in member:
-            if isinstance(e, ast.Compare) and len(e.ops) == 1 and \
-                    ast.unparse(e.left) == val:
-                if (isinstance(e.ops[0], ast.NotIn) and not t) or \
-                        (isinstance(e.ops[0], ast.In) and t):
-                    good = True
-        if not good:
-            okk = False
-            report.violation(R, 'helper:return-unchecked', h.path, r.ast,
-                             h.qualname, 'the helper can return %s without '
-                             'it having been found in '
-                             'SUPPORTED_PROTOCOL_VERSIONS' % val)
-    if okk and rets:
+    nret = 0
+    for p in S1.run(h):
+        if p.returns:
+            nret += 1
+            v = p.value
+            member = [pol for a, pol, _ in p.conds if a[1] == 'in'
+                      and struct(a[2][0]) == struct(v)
+                      and a[2][1][0] == 'glob'
+                      and a[2][1][2] == 'SUPPORTED_PROTOCOL_VERSIONS']
+            if member != [True]:
+                okk = False
+                report.violation(R, 'helper:return-unchecked', h.path,
+                                 p.outcome[2], h.qualname, 'the helper can '
+                                 'return %s without it having been found in '
+                                 'SUPPORTED_PROTOCOL_VERSIONS [%s]'
+                                 % (show(v), p.cond_text()))
+        elif p.raises:
+            ex = p.outcome[1]
+            if not (ex[0] == 'call' and ex[1] == ('builtin', 'ValueError')):
+                okk = False
+                report.violation(R, 'helper:raises-other', h.path,
+                                 p.outcome[2], h.qualname, 'an unsupported '
+                                 'version raises %s, not ValueError'
+                                 % show(ex))
+    if okk and nret:
         report.ok(R, 'every return of %s is a member of '
                   'SUPPORTED_PROTOCOL_VERSIONS' % h.name)
+    elif not nret:
+        report.violation(R, 'helper:never-returns', h.path, h.node,
+                         h.qualname, 'the helper never returns a version')
     # folding on representative inputs
     F = P.F
     sup = P.supported[-1]
@@ -137,40 +224,23 @@ def construction(report, db, cg, M, P):
             report.violation(R, 'helper:value:%r' % (arg,), h.path, h.node,
                              h.qualname, '%s(%r) folds to %r, expected %r'
                              % (h.name, arg, got, want))
-    # both inputs pass through it
-    src = ast.unparse(init.node)
-    uses = [n for n in ast.walk(init.node) if isinstance(n, ast.Name)
-            and n.id == h.name and isinstance(n.ctx, ast.Load)]
-    allowed_ok = any(isinstance(n, ast.Call) and ast.unparse(n.func) == 'map'
-                     and ast.unparse(n.args[0]) == h.name
-                     and ast.unparse(n.args[1]) == 'allowed_versions'
-                     for n in ast.walk(init.node)) or any(
-        isinstance(n, (ast.SetComp, ast.ListComp, ast.GeneratorExp))
-        and isinstance(n.elt, ast.Call)
-        and ast.unparse(n.elt.func) == h.name
-        and ast.unparse(n.generators[0].iter) == 'allowed_versions'
-        for n in ast.walk(init.node))
-    initial_ok = any(isinstance(n, ast.Call) and ast.unparse(n.func) == h.name
-                     and [ast.unparse(a) for a in n.args] ==
-                     ['initial_version'] for n in ast.walk(init.node))
-    if allowed_ok and initial_ok:
-        report.ok(R, 'allowed_versions and initial_version are both mapped '
-                  'through %s' % h.name)
-    else:
-        report.violation(R, 'helper:bypassed', init.path, init.node,
-                         init.qualname, 'allowed_versions (%s) / '
-                         'initial_version (%s) do not pass through the '
-                         'validating helper' % (allowed_ok, initial_ok))
-    # the stores use the validated values
-    stores = {}
-    for n in ast.walk(init.node):
-        if isinstance(n, ast.Assign) and isinstance(n.targets[0],
-                                                    ast.Attribute) and \
-                n.targets[0].attr in ('allowed_proto_versions',
-                                      'default_proto_version'):
-            stores.setdefault(n.targets[0].attr, []).append(
-                ast.unparse(n.value))
-    report.note('stores', stores)
+
+
+def does_nothing(S, f):
+    """the function accepts any arguments, has no effect and returns None
+    on every path"""
+    a = f.node.args
+    if a.vararg is None or a.kwarg is None or a.args or a.kwonlyargs or \
+            a.posonlyargs:
+        return False
+    if isinstance(f.node, ast.Lambda):
+        return isinstance(f.node.body, ast.Constant) and \
+            f.node.body.value is None
+    sub = pathsum.PathSum(S.db, S.cg, implicit_raises=False, max_depth=0)
+    paths = sub.run(f)
+    return bool(paths) and all(
+        (p.returns and p.value == ('const', None) or p.outcome[0] == 'fall')
+        and not p.events for p in paths)
 
 
 # ---------------------------------------------------------------------------
@@ -726,9 +796,7 @@ def plain_status(report, db, S, M, P):
                 kind = 'default'
             elif struct(v) == h:
                 kind = 'user'
-            elif v[0] == 'fn' and isinstance(v[1].node, ast.Lambda) and \
-                    isinstance(v[1].node.body, ast.Constant) and \
-                    v[1].node.body.value is None:
+            elif v[0] == 'fn' and does_nothing(S, v[1]):
                 kind = 'noop'
             else:
                 kind = show(v)
